@@ -17,7 +17,6 @@ Inductive which_stage := StActive | StMute | StBoth.
 
 Inductive case :=
 | CContains (ti : tinterval) (is : list inst)
-| CParseTime (s : string) (out : option Z)
 | CParseTimeRange (st en : string) (out : option rng)
 | CParseRange (k : rkind) (s : string) (out : option rng)
 | CMutes (m : intervals) (tzt : list (string * Z)) (names : list string) (now : Z) (out : res (bool * list string))
@@ -28,10 +27,17 @@ Definition tz_const (off : Z) : string -> Z -> Z := fun _ _ => off.
 Definition tz_table (t : list (string * Z)) : string -> Z -> Z :=
   fun n _ => match assoc n t with Some v => v | None => 0 end.
 
-(* model outputs for one instant: civil fields from unix+offset, month length, verdict *)
+(* model outputs for one instant: civil fields from unix+offset, month length, verdict.
+   `contains tz ti unix own` unfolds to `contains_fields ti (civil_fields (unix + eff_off ...))`; the fields are
+   computed once and shared (vm_compute does not share common subterms). *)
+Definition inst_local (ti : tinterval) (i : inst) : Z :=
+  i_unix i + eff_off (tz_const (i_loc_off i)) ti (i_unix i) (i_own_off i).
 Definition model_inst (ti : tinterval) (i : inst) : civil * Z * bool :=
-  let c := civil_fields (i_unix i + eff_off (tz_const (i_loc_off i)) ti (i_unix i) (i_own_off i)) in
-  (c, days_in_month (c_year c) (c_month c), contains (tz_const (i_loc_off i)) ti (i_unix i) (i_own_off i)).
+  let c := civil_fields (inst_local ti i) in
+  (c, days_in_month (c_year c) (c_month c), contains_fields ti c).
+Lemma model_inst_is_contains ti i :
+  snd (model_inst ti i) = contains (tz_const (i_loc_off i)) ti (i_unix i) (i_own_off i).
+Proof. reflexivity. Qed.
 
 Definition stage_model (w : which_stage) (m : intervals) (tzt : list (string * Z)) (x : sctx)
   (marker0 : option (list string)) : bool * option string * (list string * bool) :=
@@ -46,13 +52,12 @@ Definition stage_model (w : which_stage) (m : intervals) (tzt : list (string * Z
 
 Inductive shown :=
 | ShInsts (l : list (civil * Z * bool))
-| ShZ (o : option Z) | ShR (o : option rng) | ShM (o : res (bool * list string))
+| ShR (o : option rng) | ShM (o : res (bool * list string))
 | ShS (o : bool * option string * (list string * bool)).
 
 Definition show_case (c : case) : shown :=
   match c with
   | CContains ti is_ => ShInsts (map (model_inst ti) is_)
-  | CParseTime s _ => ShZ (parse_time s)
   | CParseTimeRange st en _ => ShR (parse_time_range st en)
   | CParseRange k s _ => ShR (parse_range k s)
   | CMutes m tzt names now _ => ShM (mutes (tz_table tzt) m names now)
@@ -65,27 +70,14 @@ Definition check_case (c : case) : bool :=
   match c with
   | CContains ti is_ =>
       forallb (fun i => beq (model_inst ti i) (i_go i, i_go_dim i, i_go_in i)) is_
-  | CParseTime s out => beq (parse_time s) out
   | CParseTimeRange st en out => beq (parse_time_range st en) out
   | CParseRange k s out => beq (parse_range k s) out
   | CMutes m tzt names now out => beq (mutes (tz_table tzt) m names now) out
   | CStage w m tzt x mk0 pass err by_ ism => beq (stage_model w m tzt x mk0) (pass, err, (by_, ism))
   end.
 
-(* ---- the declarative statement, executable (same text as Proofs/TimeIntervalProofs.v contains_spec) ---- *)
-Definition resolve_dom (dim v : Z) : Z := if v <? 0 then dim + v + 1 else v.
-Definition spec_fields (ti : tinterval) (c : civil) : bool :=
-  let dim := days_in_month (c_year c) (c_month c) in
-  field_ok (ti_times ti) (fun r => (r_b r <=? c_min c) && (c_min c <? r_e r)) &&
-  field_ok (ti_wdays ti) (fun r => (r_b r <=? c_wday c) && (c_wday c <=? r_e r)) &&
-  field_ok (ti_doms ti) (fun r => (resolve_dom dim (r_b r) <=? c_day c) && (c_day c <=? resolve_dom dim (r_e r))
-                                  && (1 <=? c_day c) && (c_day c <=? dim)) &&
-  field_ok (ti_months ti) (fun r => (r_b r <=? c_month c) && (c_month c <=? r_e r)) &&
-  field_ok (ti_years ti) (fun r => (r_b r <=? c_year c) && (c_year c <=? r_e r)).
-
 (* calendar sanity of the model's own fields: a valid date that converts back to the same day, weekday in 0..6 *)
-Definition fields_ok (local : Z) : bool :=
-  let c := civil_fields local in
+Definition fields_ok (local : Z) (c : civil) : bool :=
   valid_date (c_year c, c_month c, c_day c) &&
   (days_of_civil (c_year c) (c_month c) (c_day c) =? local / 86400) &&
   (0 <=? c_wday c) && (c_wday c <=? 6) && (0 <=? c_min c) && (c_min c <? 1440).
@@ -110,12 +102,10 @@ Definition prop_case (c : case) : bool :=
   match c with
   | CContains ti is_ =>
       forallb (fun i =>
-        let local := i_unix i + eff_off (tz_const (i_loc_off i)) ti (i_unix i) (i_own_off i) in
-        fields_ok local &&
-        (negb (ti_proper ti && ti_valid ti) ||
-         beq (contains (tz_const (i_loc_off i)) ti (i_unix i) (i_own_off i)) (spec_fields ti (civil_fields local)))) is_
-  | CParseTime s _ =>
-      match parse_time s with Some v => (0 <=? v) && (v <=? 1440) | None => true end
+        let local := inst_local ti i in
+        let c := civil_fields local in
+        fields_ok local c &&
+        (negb (ti_proper ti && ti_valid ti) || beq (contains_fields ti c) (spec_fields ti c))) is_
   | CParseTimeRange st en _ =>
       match parse_time_range st en with Some r => valid_time r | None => true end
   | CParseRange k s _ =>
